@@ -35,8 +35,15 @@ func num(v interface{}) int {
 	return 0
 }
 
-// Project maps the trace of one client-role endpoint (wsConn id `conn`) to model events.
+// Project maps the trace of one client-role endpoint (wsConn id `conn`) to model events; every other
+// connection counts as its peer.
 func Project(evs []hk.Event, conn int) (out []map[string]interface{}, attempts []int) {
+	return ProjectWith(evs, conn, nil)
+}
+
+// ProjectWith: as Project, with the peer connections named (nil = every other connection).  Attempts are
+// attributed to endpoints by the identity of the request queue they were put into.
+func ProjectWith(evs []hk.Event, conn int, peers map[int]bool) (out []map[string]interface{}, attempts []int) {
 	// attempt identities are addresses of `ready` channels, which are reused once an attempt is
 	// garbage: every call.enq starts a new attempt under a fresh number
 	alias := map[int]int{}
@@ -66,6 +73,21 @@ func Project(evs []hk.Event, conn int) (out []map[string]interface{}, attempts [
 		e.KV = kv
 	}
 	connOf := map[int]int{}
+	queueConn := map[int]int{}
+	for _, e := range evs {
+		if e.Site == "main.start" {
+			if q := num(e.KV["q"]); q != 0 {
+				queueConn[q] = e.Conn
+			}
+		}
+	}
+	for _, e := range evs {
+		if e.Site == "call.enq" {
+			if c, ok := queueConn[num(e.KV["q"])]; ok {
+				connOf[num(e.KV["a"])] = c
+			}
+		}
+	}
 	for _, e := range evs {
 		switch e.Site {
 		case "main.take", "main.failfast", "main.register", "main.wrote", "main.notifreply", "main.errcheck":
@@ -104,7 +126,7 @@ func Project(evs []hk.Event, conn int) (out []map[string]interface{}, attempts [
 		}
 		if e.Conn != conn {
 			// the peer's executor: one handler start per request frame
-			if e.Site == "fe.call" {
+			if e.Site == "fe.call" && (peers == nil || peers[e.Conn]) {
 				if at, ok := lastWrote[fw.JSON(e.KV["id"])]; ok {
 					add(map[string]interface{}{"e": "peerExec", "a": at})
 				}
@@ -201,7 +223,15 @@ func Check(d *fw.Driver, res *fw.Result, evs []hk.Event, conn int, sig string) (
 	if os.Getenv("VERIF_SKIPMODEL") == "1" {
 		return nil, nil
 	}
-	mes, attempts := Project(evs, conn)
+	return CheckWith(d, res, evs, conn, nil, sig)
+}
+
+// CheckWith: as Check with the peer connections named.
+func CheckWith(d *fw.Driver, res *fw.Result, evs []hk.Event, conn int, peers map[int]bool, sig string) (map[int]map[string]interface{}, error) {
+	if os.Getenv("VERIF_SKIPMODEL") == "1" {
+		return nil, nil
+	}
+	mes, attempts := ProjectWith(evs, conn, peers)
 	ask := map[string]interface{}{"op": "corr", "events": mes, "attempts": attempts}
 	model, err := d.Ask(ask)
 	if err != nil {
